@@ -124,6 +124,9 @@ class Freshness:
                     return 'RAW' if base == 'RAW' else ('FRESH' if f.attr in ('items', 'keys', 'values') and base == 'FRESH' else 'OTHER')
             if isinstance(f, ast.Name) and f.id in ('next', 'iter') and e.args:
                 return self.classify(e.args[0], n, depth + 1)
+            if isinstance(f, ast.Name) and f.id in ('vars', 'getattr') and e.args and not self.rd.is_local(f.id):
+                # the live attribute dictionary / an attribute of the object: part of the caller's value
+                return self.classify(e.args[0], n, depth + 1)
             return 'FRESH' if (isinstance(f, ast.Name) and f.id in FRESH_CALLS) else 'OTHER'
         return 'OTHER'
 
